@@ -139,6 +139,9 @@ pub struct JudgeState {
     pub noidle_written: u64,
     pub idle_written: u64,
     pub split_lines: u64,
+    /// kind of the last obliging unit ("idle" / "req") and whether noidle followed it
+    pub last_unit: &'static str,
+    pub noidle_since: bool,
 }
 
 pub struct World {
@@ -694,22 +697,20 @@ impl World {
         self.fault_fired[i] = true;
         let name = self.plan.faults[i].kind.name().to_string();
         self.faults_fired.push(name.clone());
-        // in which loop state did the fault land?
-        let state = if self.responses.len() <= 1 && self.judge.units_started == 0 {
-            "handshake"
-        } else if self.mpd.idle_waiting {
-            "idle"
-        } else if self.mpd.busy {
-            "in_flight"
+        // in which client state did the fault land?
+        let owed = self.judge.units_started > self.responses_fully_read();
+        let state = if self.judge.units_started == 0 {
+            "fault_in_state.handshake"
+        } else if owed && self.judge.last_unit == "idle" && !self.judge.noidle_since {
+            "fault_in_state.idle"
+        } else if owed && self.judge.last_unit == "idle" {
+            "fault_in_state.noidle_wait"
+        } else if owed {
+            "fault_in_state.in_flight"
         } else {
-            "window_or_transit"
+            "fault_in_state.window"
         };
-        match state {
-            "idle" => self.probe("fault_in_state.idle"),
-            "in_flight" => self.probe("fault_in_state.in_flight"),
-            "handshake" => self.probe("fault_in_state.handshake"),
-            _ => self.probe("fault_in_state.window_or_transit"),
-        }
+        self.probe(state);
         self.log(Ev::Fault(match note {
             Some(n) => format!("{} {}", name, n),
             None => name,
@@ -868,6 +869,7 @@ impl World {
             let word = text.split(' ').next().unwrap_or("").to_string();
             if word == "noidle" {
                 self.judge.noidle_written += 1;
+                self.judge.noidle_since = true;
                 continue;
             }
             // an obliging unit starts here: every earlier answer must have been consumed
@@ -893,7 +895,11 @@ impl World {
             }
             if word == "idle" {
                 self.judge.idle_written += 1;
+                self.judge.last_unit = "idle";
+            } else {
+                self.judge.last_unit = "req";
             }
+            self.judge.noidle_since = false;
             self.judge.units_started += 1;
             if word == "command_list_ok_begin" || word == "command_list_begin" {
                 self.judge.in_list = true;
